@@ -43,6 +43,14 @@ def gen_cases(tier, seed):
         o["current_units"] = ["uA", "nA", "mA"][k % 3]
         drive = {"A": S.field_spec(rng, dev, o, ["uniform", "ramp", "loop"][k % 3], b=0.3), "currents": S.current_spec(rng, dev, o, "const" if nt else "none", strength=0.2)}  # (loop: A depends on z)
         cases.append({"layer": "L2", "device": dev, "options": o, "drive": drive, "seed": int(rng.integers(1 << 30)), "cost": 15})
+    for k in range(1 if tier == "quick" else 3):
+        # a tilted uniform field: the applied vector potential has a z component (the film only feels the in-plane part; the
+        # potential reported at a position is the whole vector)
+        dev = zoo.gen_device(rng, n_terminals=0, n_holes=int(k % 2), probes=0, size="small")
+        o = S.base_options(rng, adaptive=True, steps=60)
+        A_ = S.field_spec(rng, dev, o, "uniform", b=0.3)
+        cases.append({"layer": "L2", "device": dev, "options": o, "drive": {"A": {"kind": "tilted", "B": A_["B"], "Bx": 1.7 * A_["B"]}, "currents": {"kind": "none"}},
+                      "seed": int(rng.integers(1 << 30)), "cost": 15})
     nw = 1 if tier == "quick" else 4
     for k in range(nw):
         # weakly driven device stated in large current units: every current density is a tiny NUMBER (1e-10 A/um and below), not a zero
@@ -288,6 +296,31 @@ def _l2(spec):
             sc = np.max(np.abs(ref)) + 1e-300
             if np.max(np.abs(np.asarray(parts["applied"]) - ref)) > 1e-9 * sc:
                 viol("applied_part_wrong", {"units": units_, "time_dependent": bool(avp.time_dependent)})
+    # the sheet current densities are public quantities WITH units: handing the same currents back in other (equivalent) units,
+    # or a multiple of them, gives the same / the scaled field and potential
+    Ks_q, Kn_q = sol.supercurrent_density, sol.normal_current_density  # (of the step that is loaded)
+    f0 = sol.field_at_position(P, vector=True, units="T", with_units=False, return_sum=False)
+    a0 = sol.vector_potential_at_position(P, units="T * m", with_units=False, return_sum=False)
+    f0s, f0n, a0s = np.array(f0.supercurrent), np.array(f0.normal_current), np.array(a0["supercurrent_density"])
+    try:
+        for un_ in (f"m{cu[-1]}/{lu}" if cu != "mA" else f"uA/{lu}", "A/m", "A/cm", "uA/nm", "mA/um"):
+            sol.supercurrent_density, sol.normal_current_density = Ks_q.to(un_), Kn_q.to(un_)
+            C["reexpressed_current_checks"] = C.get("reexpressed_current_checks", 0) + 1
+            f1 = sol.field_at_position(P, vector=True, units="T", with_units=False, return_sum=False)
+            a1 = sol.vector_potential_at_position(P, units="T * m", with_units=False, return_sum=False)
+            for nm_, x0, x1 in (("field/supercurrent", f0s, f1.supercurrent), ("field/normal_current", f0n, f1.normal_current), ("potential/supercurrent", a0s, a1["supercurrent_density"])):
+                r_ = float(np.max(np.abs(np.asarray(x1) - x0)) / (np.max(np.abs(x0)) + 1e-300))
+                if r_ > 1e-10:
+                    viol("result_depends_on_units_of_current_density", {"what": nm_, "units": un_, "rel": r_})
+        sol.supercurrent_density, sol.normal_current_density = 2.5 * Ks_q + 0.5 * Kn_q, -1.5 * Kn_q
+        C["linearity_by_assignment_checks"] = 1
+        f2 = sol.field_at_position(P, vector=True, units="T", with_units=False, return_sum=False)
+        for nm_, want_, got_ in (("supercurrent", 2.5 * f0s + 0.5 * f0n, f2.supercurrent), ("normal_current", -1.5 * f0n, f2.normal_current)):
+            r_ = float(np.max(np.abs(np.asarray(got_) - want_)) / (np.max(np.abs(want_)) + 1e-300))
+            if r_ > 1e-10:
+                viol("field_not_linear_in_currents", {"part": nm_, "rel": r_})
+    finally:
+        sol.supercurrent_density, sol.normal_current_density = Ks_q, Kn_q
     # the same lateral positions at OTHER heights, asked of the same Solution object right afterwards (nothing may be remembered per (x, y))
     P2 = P.copy()
     P2[:, 2] = dev.layer.z0 + (P[:, 2] - dev.layer.z0) * rng.uniform(1.5, 4.0, len(P))
